@@ -129,7 +129,15 @@ func main() {
 	driver := flag.String("driver", verifRoot()+"/_build/extract/driver", "model driver binary")
 	replay := flag.String("replay", "", "replay file")
 	flag.StringVar(&ecoFilter, "eco", "", "comma-separated ecosystems (CORR only)")
+	dumpLits := flag.String("dump-literals", "", "write the integer and string constants of the non-test sources to this file (bin/snapshot-gen)")
 	flag.Parse()
+	if *dumpLits != "" {
+		if err := dumpLiterals(*dumpLits); err != nil {
+			fmt.Fprintln(os.Stderr, err)
+			os.Exit(2)
+		}
+		return
+	}
 	if *replay != "" {
 		os.Exit(doReplay(*replay))
 	}
@@ -154,6 +162,9 @@ func main() {
 		defer pool.Close()
 	}
 	startWatchdog(res, *out)
+	if n := newLiteralNote(); n != "" {
+		res.Notes = append(res.Notes, n)
+	}
 	f(ctx)
 	res.Findings = findingStatuses(*prop)
 	res.WallS = time.Since(t0).Seconds()
